@@ -623,3 +623,125 @@ func ReturnNonNilGuarded(ret *ssa.Return, errv ssa.Value) bool {
 	}
 	return false
 }
+
+// PtrTarget is one allocation a pointer value may point to.  Via is set when the allocation is made in a helper whose
+// result flows into the pointer: the call in the outer frame; Ret is then the return of the helper handing it out.
+type PtrTarget struct {
+	Alloc *ssa.Alloc
+	Via   *ssa.Call
+	Ret   *ssa.Return
+}
+
+// Block is the block, in the frame of the allocation, at which the object is complete: the return handing it out of
+// a helper, else the allocation's own block.
+func (t PtrTarget) Block() *ssa.BasicBlock {
+	if t.Ret != nil {
+		return t.Ret.Block()
+	}
+	return t.Alloc.Block()
+}
+
+// ArgOf maps a value of the helper's frame that is (derived by Origin from) a parameter to the argument at the call.
+func (t PtrTarget) ArgOf(v ssa.Value) (ssa.Value, bool) {
+	if t.Via == nil {
+		return v, false
+	}
+	p, ok := Origin(v).(*ssa.Parameter)
+	callee := t.Via.Call.StaticCallee()
+	if !ok || callee == nil || p.Parent() != callee {
+		return v, false
+	}
+	for i, q := range callee.Params {
+		if q == p && i < len(t.Via.Call.Args) {
+			return t.Via.Call.Args[i], true
+		}
+	}
+	return v, false
+}
+
+// PtrTargets returns the allocations the pointer v may point to: local allocations reached through φs and local
+// pointer variables, and allocations returned by helpers accept admits (one level).  nil constants are skipped;
+// complete is false when some source is neither.
+func PtrTargets(v ssa.Value, accept func(*ssa.Function) bool) (out []PtrTarget, complete bool) {
+	complete = true
+	type visit struct {
+		v   ssa.Value
+		via *ssa.Call
+	}
+	seen := map[visit]bool{}
+	var walk func(v ssa.Value, via *ssa.Call, ret *ssa.Return, d int)
+	walk = func(v ssa.Value, via *ssa.Call, ret *ssa.Return, d int) {
+		v = Strip(v)
+		if v == nil || seen[visit{v, via}] {
+			return
+		}
+		seen[visit{v, via}] = true
+		if d > 10 {
+			complete = false
+			return
+		}
+		if IsNilConst(v) {
+			return
+		}
+		switch x := v.(type) {
+		case *ssa.Alloc:
+			out = append(out, PtrTarget{Alloc: x, Via: via, Ret: ret})
+		case *ssa.Phi:
+			for _, e := range x.Edges {
+				walk(e, via, ret, d+1)
+			}
+		case *ssa.UnOp:
+			// a local pointer variable: everything stored into it
+			if x.Op == token.MUL {
+				if sts, unk := CellStores(x.X); !unk && len(sts) > 0 {
+					for _, st := range sts {
+						walk(st.Val, via, ret, d+1)
+					}
+					return
+				}
+			}
+			complete = false
+		case *ssa.Call, *ssa.Extract:
+			if via != nil {
+				complete = false // one level only
+				return
+			}
+			hr := HelperReturns(v, accept)
+			if len(hr) == 0 {
+				complete = false
+				return
+			}
+			for _, r := range hr {
+				walk(r.Val, r.Call, r.Ret, d+1)
+			}
+		default:
+			complete = false
+		}
+	}
+	walk(v, nil, nil, 0)
+	return out, complete
+}
+
+// FieldStoresOf returns the values stored into field `field` of the allocation (through any &alloc.field), and
+// for a struct-typed field the addresses &alloc.field themselves (whose own fields may be filled one by one).
+func FieldStoresOf(al *ssa.Alloc, field int) (vals []ssa.Value, addrs []*ssa.FieldAddr) {
+	if al.Referrers() == nil {
+		return nil, nil
+	}
+	for _, ref := range *al.Referrers() {
+		fa, ok := ref.(*ssa.FieldAddr)
+		if !ok || fa.Field != field {
+			continue
+		}
+		addrs = append(addrs, fa)
+		if fa.Referrers() == nil {
+			continue
+		}
+		for _, rr := range *fa.Referrers() {
+			if st, ok := rr.(*ssa.Store); ok && st.Addr == ssa.Value(fa) {
+				vals = append(vals, st.Val)
+			}
+		}
+	}
+	return vals, addrs
+}
